@@ -142,6 +142,11 @@ def run(ctx):
         rs.append((gen_random_script(rng, ty, 300 if ctx.quick else 1500, 3000 if ctx.quick else 12000, False), None))
         for p, group in pack(ctx, rs, "rand_" + kind):
             jobs.append((kind, p, group, exe_asan if ctx.quick else exe))
+    # a worst-case AVL tree of height 35 (24 million pairs): the deepest leaf is removed, then the shape is rebuilt from lookup paths (C13 in
+    # both tiers - 10 s, 1.5 GB; the other two properties in the thorough tier)
+    if mode == "bal" or not ctx.quick:
+        for p, group in pack(ctx, [(["reset", "univ 6", "deep 35"], None)], "deep_avl"):
+            jobs.append(("avl", p, group, exe))
     # ---- M3: run on the real code
     traces = []
     for kind, sp, group, ex in jobs:
